@@ -468,3 +468,40 @@ func TestDocSeveralCalls(t *testing.T) {
 		t.Fatalf("statistics: misaligned %d absent %d", r.Misaligned, r.AbsentCalls)
 	}
 }
+
+// MIN()/MAX() ties: the earliest of the tied points is the selected one, whatever the order of
+// the series or of the output; tied points sharing the earliest timestamp stay interchangeable.
+func TestMinMaxTieEarliest(t *testing.T) {
+	d := &Data{Points: []Point{
+		{Tags: map[string]string{"host": "a"}, T: 10, Fields: map[string]Value{"x": iv(3)}},
+		{Tags: map[string]string{"host": "b"}, T: 50, Fields: map[string]Value{"x": iv(9)}},
+		{Tags: map[string]string{"host": "c"}, T: 50, Fields: map[string]Value{"x": iv(9)}},
+		{Tags: map[string]string{"host": "a"}, T: 70, Fields: map[string]Value{"x": iv(9)}},
+		{Tags: map[string]string{"host": "b"}, T: 90, Fields: map[string]Value{"x": iv(3)}},
+	}}
+	cols := []string{"time", "max", "host"}
+	for _, desc := range []bool{false, true} {
+		q := &Query{Measurement: "m", Proj: []Proj{{Kind: ProjCall, Func: "max", Name: "x"}, {Kind: ProjTag, Name: "host"}}, Desc: desc}
+		r := mustEval(t, d, q)
+		if r.MinMaxTies != 1 || r.MinMaxTiesDecided != 1 || r.MinMaxTiesAcrossSeries != 1 {
+			t.Fatalf("tie statistics: %+v", r)
+		}
+		for _, h := range []string{"b", "c"} {
+			if err := r.Check(toGot(cols, []wantSeries{{nil, [][]any{{int64(50), int64(9), h}}}})); err != nil {
+				t.Fatalf("earliest tied point (host %s) rejected: %v", h, err)
+			}
+		}
+		expectReject(t, d, q, cols, []wantSeries{{nil, [][]any{{int64(70), int64(9), "a"}}}}, "later tied point")
+		q.Proj[0].Func = "min"
+		cols2 := []string{"time", "min", "host"}
+		expectReject(t, d, q, cols2, []wantSeries{{nil, [][]any{{int64(90), int64(3), "b"}}}}, "later tied point")
+		if err := mustEval(t, d, q).Check(toGot(cols2, []wantSeries{{nil, [][]any{{int64(10), int64(3), "a"}}}})); err != nil {
+			t.Fatal(err)
+		}
+	}
+	// with GROUP BY time the row carries the bucket start: a tie is decided only through tag columns
+	q := &Query{Measurement: "m", Proj: []Proj{{Kind: ProjCall, Func: "max", Name: "x"}}, Times: []TimeBound{{Op: GTE, T: 0}, {Op: LT, T: 100}}, Interval: 100}
+	if r := mustEval(t, d, q); r.MinMaxTies != 1 || r.MinMaxTiesDecided != 0 {
+		t.Fatalf("tie statistics under GROUP BY time: %+v", r)
+	}
+}
